@@ -1,6 +1,7 @@
 import Nstd.Common.Basic
 import Nstd.Sync.Scenario
 import Nstd.Generated.SyncMonitorOrder
+import Nstd.Generated.SyncShape
 /-
   Line protocol of the Sync area (same lines as harness/sync.cpp):
     reset
@@ -58,8 +59,8 @@ def mkWorld (prim : String) (init sec nsec quantum spur eintr cfail enosys : Nat
   let now := sec * 1000000000 + nsec
   let p : Option PrimSt :=
     if prim == "mtx" then some (.mtx Mutex.init)
-    else if prim == "sem" then some (.sem (Sem.init init now eintr enosys))
-    else if prim == "sig" then some (.sig (Signal.init (init != 0) now spur))
+    else if prim == "sem" then some (.sem (Sem.init init now eintr enosys Nstd.Generated.SyncShape.semTryFirst))
+    else if prim == "sig" then some (.sig (Signal.init (init != 0) now spur Nstd.Generated.SyncShape.signalSetSkips Nstd.Generated.SyncShape.signalLazyDeadline))   -- the variants of the current source
     else if prim == "mon" then some (.mon (Monitor.init now spur Nstd.Generated.SyncMonitorOrder.setSignalsFirst))   -- the order of set() in the current source
     else if prim == "thr" then some .thr
     else none
